@@ -1,6 +1,7 @@
 package core
 
 import (
+	"go/token"
 	"go/types"
 
 	"golang.org/x/tools/go/ssa"
@@ -28,6 +29,22 @@ func FlattenPhi(v ssa.Value) []ssa.Value {
 			walk(t.X)
 		case *ssa.MakeInterface:
 			walk(t.X)
+		case *ssa.UnOp:
+			// a load of a local cell (a named result or variable spilled because the function has a defer or
+			// a closure): the stores that reach the load, like the edges of the phi it would have been
+			if cell, ok := t.X.(*ssa.Alloc); ok && t.Op == token.MUL {
+				vals, zero, clob := ReachingStores(cell, t)
+				if !clob && (len(vals) > 0 || zero) {
+					for _, sv := range vals {
+						walk(sv)
+					}
+					if zero {
+						out = append(out, ssa.NewConst(nil, t.Type()))
+					}
+					return
+				}
+			}
+			out = append(out, x)
 		default:
 			out = append(out, x)
 		}
@@ -268,4 +285,68 @@ func ResolveCellLoad(v ssa.Value) ssa.Value {
 		v = vals[0]
 	}
 	return v
+}
+
+// Res returns result i of a return instruction, looking through a named
+// result that was spilled to a local cell (functions with a defer store the
+// results, run the defers and load them back): when exactly one store reaches
+// the load that value is returned, otherwise the load itself.
+func Res(ret *ssa.Return, i int) ssa.Value {
+	if i < 0 || i >= len(ret.Results) {
+		return nil
+	}
+	return ResolveCellLoad(ret.Results[i])
+}
+
+// AsReturn is in.(*ssa.Return) for the returns a caller can observe: the
+// return in the function's recover block (present as soon as the function has
+// a defer; it only re-loads the named results after a recovered panic) is not
+// one of them.
+func AsReturn(in ssa.Instruction) (*ssa.Return, bool) {
+	ret, ok := in.(*ssa.Return)
+	if !ok {
+		return nil, false
+	}
+	if fn := ret.Parent(); fn != nil && fn.Recover != nil && ret.Block() == fn.Recover {
+		return nil, false
+	}
+	return ret, true
+}
+
+// SameValue reports whether two SSA values denote the same runtime value:
+// they are identical, or they are loads of local cells that resolve to the
+// same single stored value (variables of a function with a defer or closure
+// live in cells and every use is a fresh load).
+func SameValue(a, b ssa.Value) bool {
+	if a == b {
+		return true
+	}
+	ra, rb := ResolveCellLoad(ResolveLocalLoad(a)), ResolveCellLoad(ResolveLocalLoad(b))
+	if ra == rb {
+		return true
+	}
+	// two loads of the same cell reached by the same set of stores
+	la, oka := a.(*ssa.UnOp)
+	lb, okb := b.(*ssa.UnOp)
+	if oka && okb {
+		ca, _ := la.X.(*ssa.Alloc)
+		cb, _ := lb.X.(*ssa.Alloc)
+		if ca != nil && ca == cb {
+			va, za, xa := ReachingStores(ca, la)
+			vb, zb, xb := ReachingStores(cb, lb)
+			if !xa && !xb && za == zb && len(va) == len(vb) {
+				set := map[ssa.Value]bool{}
+				for _, v := range va {
+					set[v] = true
+				}
+				for _, v := range vb {
+					if !set[v] {
+						return false
+					}
+				}
+				return true
+			}
+		}
+	}
+	return false
 }
